@@ -367,6 +367,24 @@ def handle : R String := do
       let p := Loc.posAfter (s.take t.off)
       s!"{t.kind.name} {wStr t.value} {p.1} {p.2}"
     pure (wList w toks)
+  | "parse" => do
+    -- parse <text> <warn_octal>: conditional compilation (lines preserved), lexer model, parser model
+    let s0 ← str
+    let wo ← nat
+    let s := Ifdef.evaluateP s0
+    let (items, m) := Parse.parseText (wo != 0) s
+    let pos (off : Nat) : String := let p := Loc.posAfter (s.take off); s!"{p.1} {p.2}"
+    let wItem : Parse.Item → String
+      | .op o =>
+        -- the operation as the class it is an instance of (`TIGER_STRING` is `LP_STRING`, `print_reg` is `PRINT_REG`)
+        let cname := match nameToClass.find? (fun p => Str.ofString p.1 == o.name) with
+          | some p => p.2.pyName
+          | none => "?"
+        s!"O {wString cname} {wList wTokP o.args} {pos o.off}"
+      | .incStr path off => s!"IS {wStr path} {pos off}"
+      | .incAngle name off => s!"IA {wStr name} {pos off}"
+    let wMsg (p : String × Nat) : String := s!"{wString p.1} {pos p.2}"
+    pure s!"{wBool m.stuck} {wList wItem items} {wList wMsg m.errors} {wList wMsg m.warnings}"
   | "wf" => do
     let v ← vm
     pure (wBool (wfb v))
